@@ -127,6 +127,11 @@ func init() {
 			isTO := errors.Is(err, mqtt.ErrPingTimeout)
 			if isTO != (last == "n") {
 				r.Props = append(r.Props, viol("C13", "timeout-misreported", "outcomes %v: ErrPingTimeout=%v (a timeout must be reported exactly when the last ping got no response)", f, isTO))
+				if isTO {
+					// the reconnecting client stores this error on the connection and closes it: Err() non-nil, Closed reported
+					// and Done() closed for a connection whose peer answered every ping in time
+					r.Props = append(r.Props, viol("C16", "keepalive-error-on-healthy-connection", "outcomes %v: every ping was answered within the timeout, yet KeepAlive reports a ping timeout (the managed connection would be closed with that error)", f))
+				}
 			}
 			if last == "c" && !errors.Is(err, context.Canceled) {
 				r.Props = append(r.Props, viol("C13", "cancel-misreported", "parent context cancelled during a ping but KeepAlive returned %v", err))
@@ -265,6 +270,11 @@ func execKAReconn(f []string) Result {
 	if !errors.Is(c0.cli.Err(), mqtt.ErrPingTimeout) {
 		r.Props = append(r.Props, viol("C13", "timeout-not-reported", "Err() of the timed-out connection is %v, not ErrPingTimeout", c0.cli.Err()))
 	}
+	sc.mu.Lock()
+	for _, mm := range sc.cbMismatch {
+		r.Props = append(r.Props, viol("C16", "closed-error-differs", "after a keep-alive timeout: %s", mm))
+	}
+	sc.mu.Unlock()
 	if !waitFor(func() bool { sc.mu.Lock(); defer sc.mu.Unlock(); return sc.dialReq >= 2 }, 3*time.Second) {
 		r.Props = append(r.Props, viol("C13", "no-redial-after-ping-timeout", "no new dial after the keep-alive timeout"))
 		return r
